@@ -77,7 +77,11 @@ static void m_union(uint64_t* b, uint64_t x, uint64_t y){
   x=m_find(b,x); y=m_find(b,y); if (x==y) return;
   uint8_t xr=R(b[x]), yr=R(b[y]);
   if (xr>yr || (xr==yr && x>y)) { uint64_t tx=x; x=y; y=tx; uint8_t tr=xr; xr=yr; yr=tr; }
-  b[x]=(y<<8)|yr;
+#if MODEL_LINK_RANK == 1
+  b[x]=(y<<8)|yr;   /* the linked node's rank field is overwritten with the rank read for its new parent */
+#else
+  b[x]=(y<<8)|xr;   /* the linked node keeps its own rank */
+#endif
   if (xr==yr) b[y]=(y<<8)|(uint8_t)(yr+1);
 }
 static int m_same(uint64_t* b, uint64_t x, uint64_t y){ x=m_find(b,x); y=m_find(b,y); return x==y; }
@@ -626,6 +630,10 @@ def _prepare(work):
                    "void unionNodes(parent_t x, parent_t y)", "compare_exchange_strong"):
         if anchor not in uf:
             raise EngineError("anchor not found in UnionFind.h: " + anchor)
+    m = re.search(r"if \(!updateRoot\(x,\s*xrank,\s*y,\s*(xrank|yrank)\)\)", uf)
+    if not m:
+        raise EngineError("link call updateRoot(x, xrank, y, <rank>) not found in unionNodes: the sequential reference model cannot be selected")
+    K29["model_link_rank"] = 1 if m.group(1) == "yrank" else 0
     cpp = os.path.join(work, "uf_k.cpp")
     open(cpp, "w").write(WRAPPER)
     ll = K.lower(cpp, os.path.join(work, "uf_k.ll"), extra=["-fno-exceptions"])
@@ -664,7 +672,7 @@ def _prepare(work):
     for nm, txt in (("uf_seq.c", H_SEQ), ("uf_pre.c", H_PRE), ("uf_rg.c", H_RG), ("uf_thr.c", H_THR)):
         open(os.path.join(work, nm), "w").write(txt)
     # loop ids of the yield-mode kernels: the last loop of union/sameSet is the retry loop, the others are findNode loops
-    rc, out, err = sh(["cbmc", os.path.join(work, "uf_pre.c"), "--show-loops", "-I", K.HERE, "-I", work, "-DNN=3", "-DOP=0", "-DEOP=0", "-DENV=1"], timeout=120)
+    rc, out, err = sh(["cbmc", os.path.join(work, "uf_pre.c"), "--show-loops", "-I", K.HERE, "-I", work, "-DNN=3", "-DOP=0", "-DEOP=0", "-DENV=1", "-DMODEL_LINK_RANK=1"], timeout=120)
     loops = {}
     for fn, idx in re.findall(r"^Loop (ds_find|ds_union|ds_same)\.(\d+):", out, re.M):
         loops.setdefault(fn, []).append(int(idx))
@@ -695,7 +703,7 @@ def _build(work, name, text, n):
     if os.path.exists(exe):
         return exe, None
     open(cpp, "w").write(text)
-    rc, out, err = sh(["g++", "-std=c++17", "-O1", "-w", "-DNN=%d" % n, "-I", os.path.join(common.REPO, "src", "include"),
+    rc, out, err = sh(["g++", "-std=c++17", "-O1", "-w", "-DNN=%d" % n, "-DMODEL_LINK_RANK=%d" % K29.get("model_link_rank", 1), "-I", os.path.join(common.REPO, "src", "include"),
                        cpp, "-o", exe, "-lpthread"], timeout=300)
     if rc != 0:
         return None, "native replay build failed: " + err[-800:]
@@ -836,7 +844,7 @@ def run(tier, seed, only=None):
         # (a)
         for n in ((4, 3, 2) if thorough else (4,)):   # a forest over < 4 nodes plus isolated nodes is a forest over 4 nodes
             for opi, opn in enumerate(OPS):
-                obls.append(K.Obligation("seq:%s:N=%d" % (opn, n), [os.path.join(work, "uf_seq.c")], defines=["NN=%d" % n, "OP=%d" % opi],
+                obls.append(K.Obligation("seq:%s:N=%d" % (opn, n), [os.path.join(work, "uf_seq.c")], defines=["NN=%d" % n, "OP=%d" % opi, "MODEL_LINK_RANK=%d" % K29["model_link_rank"]],
                                          unwind=n + 2, timeout=240 if not thorough else 600, includes=[work], mem_gb=8,
                                          meta={"part": "a", "N": n, "op": opn, "_op": opi}))
         # (b1) one complete operation of another thread between two atomic accesses of the operation
@@ -844,7 +852,7 @@ def run(tier, seed, only=None):
 
         def pre_ob(n, e, opi, eop, excl, site, cap, opt):
             name = "preempt%s:%s|%s:N=%d:E=%d:%s" % ("-excl" if excl else "", OPS[opi], OPS[eop], n, e, "site=%d" % site if site else "allsites")
-            defs = ["NN=%d" % n, "OP=%d" % opi, "EOP=%d" % eop, "ENV=%d" % e] + (["EXCL_KNOWN"] if excl else []) + (["SITE=%d" % site] if site else [])
+            defs = ["NN=%d" % n, "OP=%d" % opi, "EOP=%d" % eop, "ENV=%d" % e, "MODEL_LINK_RANK=%d" % K29["model_link_rank"]] + (["EXCL_KNOWN"] if excl else []) + (["SITE=%d" % site] if site else [])
             return K.Obligation(name, [pre], defines=defs, unwind=n + 2, unwindset=_unwindset(opi, n, e), timeout=cap, includes=[work], mem_gb=10,
                                 meta={"part": "b1", "N": n, "E": e, "op": OPS[opi], "env_op": OPS[eop], "excl_known": excl,
                                       "site": site or "all", "_op": opi, "_eop": eop, "_opt": opt})
@@ -855,7 +863,7 @@ def run(tier, seed, only=None):
             # N=3 at the pause sites around the link CAS (load and CAS inside the first updateRoot): lost-update / retry errors
             us = K29["sites"]["ds_union"]
             for site in us[-4:-2]:
-                obls.append(pre_ob(3, 1, 0, 0, True, site, 300, False))
+                obls.append(pre_ob(3, 1, 0, 0, False, site, 300, False))
         if thorough:
             for opi in (0, 1, 2):
                 for eop in (0, 2):
@@ -865,21 +873,20 @@ def run(tier, seed, only=None):
             for opi in (0, 1, 2):
                 for eop in (0, 2):
                     for site in K29["sites"][KFN[opi]]:
-                        # the stale-rank class only arises in the operation's own link after another union: elsewhere excl == plain
-                        obls.append(pre_ob(3, 1, opi, eop, (opi, eop) == (0, 0), site, 400, True))
+                        obls.append(pre_ob(3, 1, opi, eop, False, site, 400, True))
             # (b2) abstract environment, known class excluded
             rg = os.path.join(work, "uf_rg.c")
             for n, e, per_site in ((2, 1, False), (2, 2, False), (3, 1, True)):
                 for opi, opn in enumerate(OPS):
                     for site in (K29["sites"][KFN[opi]] if per_site else [None]):
                         name = "rg-excl:%s:N=%d:E=%d:%s" % (opn, n, e, "site=%d" % site if site else "allsites")
-                        obls.append(K.Obligation(name, [rg], defines=["NN=%d" % n, "OP=%d" % opi, "ENV=%d" % e, "EXCL_KNOWN"] + (["SITE=%d" % site] if site else []),
+                        obls.append(K.Obligation(name, [rg], defines=["NN=%d" % n, "OP=%d" % opi, "ENV=%d" % e, "EXCL_KNOWN", "MODEL_LINK_RANK=%d" % K29["model_link_rank"]] + (["SITE=%d" % site] if site else []),
                                                  unwind=n + 2, unwindset=_unwindset(opi, n, e), timeout=400, includes=[work], mem_gb=10,
                                                  meta={"part": "b2", "N": n, "E": e, "op": opn, "excl_known": True, "site": site or "all", "_op": opi, "_opt": True}))
             # (c) two native CBMC threads (measured: only find|find finishes; the others are attempted under a short cap)
             for r1, r2 in ((2, 2), (1, 2), (0, 2), (0, 0)):
                 name = "thr:%s|%s:N=2:anyforest" % (OPS[r1], OPS[r2])
-                obls.append(K.Obligation(name, [os.path.join(work, "uf_thr.c")], defines=["NN=2", "R1=%d" % r1, "R2=%d" % r2],
+                obls.append(K.Obligation(name, [os.path.join(work, "uf_thr.c")], defines=["NN=2", "R1=%d" % r1, "R2=%d" % r2, "MODEL_LINK_RANK=%d" % K29["model_link_rank"]],
                                          unwind=3, timeout=240, includes=[work], mem_gb=10,
                                          meta={"part": "c", "N": 2, "roles": [OPS[r1], OPS[r2]], "fresh": False, "_roles": (r1, r2), "_opt": True}))
         if only:
@@ -887,6 +894,18 @@ def run(tier, seed, only=None):
         K.run_all(obls, jobs=6)
         nprops = 0
         dropped = []
+        # second round: where the plain obligation is violated, exclude the known stale-rank class by assumption and re-prove the rest
+        have = set(o.name for o in obls)
+        twins = []
+        for o in obls:
+            if o.meta["part"] == "b1" and not o.meta["excl_known"] and o.verdict == "violated":
+                t = pre_ob(o.meta["N"], o.meta["E"], o.meta["_op"], o.meta["_eop"], True, None if o.meta["site"] == "all" else o.meta["site"],
+                           o.timeout, o.meta["_opt"])
+                if t.name not in have:
+                    twins.append(t)
+        if twins:
+            K.run_all(twins, jobs=6)
+            obls += twins
         for o in obls:
             nprops += o.res.n_props if o.res else 0
             opt = o.meta.get("_opt")
